@@ -835,7 +835,40 @@ func (w *World) enabledPicks() []pick {
 // pending id has been reconciled without any effect since the last effect (a pure re-queue
 // spin, which is a fixed point as far as persisted state is concerned). Every pick is a
 // recorded step. It reports whether a spin was left behind.
-func (w *World) Drain(maxSteps int) (spin bool, err error) {
+func (w *World) Drain(maxSteps int) (spin bool, err error) { return w.DrainWith(maxSteps, "") }
+
+// pickRank orders pending work for the deterministic drain policies: connection, mastership and configuration
+// reconciles first, then transactions and proposals by log index - "newest": highest index first (work that has been
+// pending since a restart is served last), "oldest": lowest index first.
+func pickRank(p pick, pol string) (int, int) {
+	if p.exec {
+		return 0, 0
+	}
+	idx := 0
+	s := p.key
+	if i := strings.LastIndex(s, "-"); i >= 0 && p.ctl == "prop" {
+		s = s[i+1:]
+	}
+	fmt.Sscanf(s, "%d", &idx)
+	if pol == "newest" {
+		idx = -idx
+	}
+	switch p.ctl {
+	case "conn":
+		return 1, 0
+	case "mast":
+		return 2, 0
+	case "cfg":
+		return 3, 0
+	case "prop":
+		return 4, idx
+	default:
+		return 5, idx
+	}
+}
+
+// DrainWith is Drain with a policy for the order in which pending work is served.
+func (w *World) DrainWith(maxSteps int, pol string) (spin bool, err error) {
 	for n := 0; n < maxSteps; n++ {
 		picks := w.enabledPicks()
 		if len(picks) == 0 {
@@ -870,6 +903,15 @@ func (w *World) Drain(maxSteps int) (spin bool, err error) {
 			}
 		}
 		p := cand[w.rng.Intn(len(cand))]
+		if pol == "newest" || pol == "oldest" {
+			for _, c := range cand {
+				a1, b1 := pickRank(c, pol)
+				a0, b0 := pickRank(p, pol)
+				if a1 < a0 || (a1 == a0 && b1 < b0) || (a1 == a0 && b1 == b0 && c.key < p.key) {
+					p = c
+				}
+			}
+		}
 		if p.exec {
 			if err := w.Step(Step{K: "exec", A: p.actor, Auto: true}); err != nil {
 				return false, err
